@@ -200,7 +200,7 @@ def run_jobs(prop, jobs, work, tier):
             if tier == 'thorough' or h.get('tier', 'quick') == 'quick':
                 all_h.append(h)
     names = [h['name'] for h in all_h] + ['verif_canary_must_fail']
-    tmo = 3000 if tier == 'thorough' else 1500
+    tmo = 7200 if tier == 'thorough' else 1500
     rc, out, wall = run_kani(scratch, names, tmo)
     if 'error: could not compile' in out or re.search(r'(?m)^error(\[E\d+\])?:', out) and 'Checking harness' not in out:
         for h in all_h:
